@@ -7,7 +7,7 @@ def Good (s : State) (min : Nat) (r : AheadR × State) : Prop :=
    | .window w _ => remaining r.2 = remaining s ∧ w <+: remaining s ∧ min ≤ w.length ∧ r.2.fatal = false
    | .short k => remaining r.2 = remaining s ∧ r.2.fatal = false ∧
        ((min = 0 ∧ k = 0) ∨ ((remaining s).length < min ∧ k = (remaining s).length ∧ s.term = .eof))
-   | .fatal => r.2.fatal = true ∧ (remaining s).length < min ∧ s.term = .err
+   | .fatal => remaining r.2 = remaining s ∧ r.2.fatal = true ∧ (remaining s).length < min ∧ s.term = .err
    | .stuck => False)
 
 theorem drop_split (l : List Nat) (k n : Nat) (h : k ≤ n) :
@@ -175,9 +175,10 @@ theorem aheadLoop_spec (s : State) (min : Nat) (hi : Inv s) (hf : s.fatal = fals
       rw [remaining_eq s hc, hsrc]
       have : s.cblk.drop s.cnext = [] := List.drop_of_length_le (by omega)
       simp [this]
-    refine ⟨?_, by simp [s1], by simp [s1], rfl, ?_, hterm'⟩
+    refine ⟨?_, by simp [s1], by simp [s1], ?_, rfl, ?_, hterm'⟩
     · exact { cbIn := hi1.cbIn, bufLt := hi1.bufLt, clientEq := by simp,
               prov := ⟨s1.cb, [], by simp⟩, eofSrc := hi1.eofSrc, srcOk := hi1.srcOk }
+    · rw [hrem]; simp [remaining, s1, hsrc]
     · rw [hrem]
       by_cases hl : s.cb.length > 0
       · have : ¬ s.cb.length ≥ min := fun hh => h1 ⟨hh, hl⟩
